@@ -51,6 +51,19 @@ def ill_family(mode: str, version: int) -> List[Tuple[str, Dict[str, Any], Dict[
     add("nary-and-with-bytes", ("Seq", ("Un", "Pop", ("Nary", "And", U1, B1)), ret1()))
     if mode == "A":
         add("gput-key-uint", ("Seq", ("GPut", U1, U2), ret1()))
+        # an anytype-typed value where nothing is expected (App.globalGet is anytype)
+        K = ("Bytes", b"k")
+        add("seq-middle-anytype", ("Seq", ("GGet", K), ret1()))
+        add("seq-middle-anytype-in-operand", ("Return", ("Bin", "Minus", ("Int", 10), ("Seq", ("If", U1, ("GGet", K)), ("Int", 3)))))
+        add("if-arm-anytype", ("Seq", ("If", U1, ("GGet", K)), ret1()))
+        add("while-body-anytype", ("Seq", ("While", U1, ("Seq", ("GGet", K))), ret1()))
+        add("for-body-anytype", ("Seq", ("For", ("Store", "x", ("Int", 0)), ("Bin", "Lt", ("Load", "x"), U1), ("Store", "x", ("Bin", "Add", ("Load", "x"), ("Int", 1))), ("GGet", K)), ret1()))
+    if mode == "A" and version >= 6:
+        # ABI values set from an expression of the wrong type (main routine: scratch-backed; see the routine variants below)
+        add("abi-uint64-from-bytes", ("Return", ("AbiTmp", "u64", B1)))
+        add("abi-uint16-from-bytes", ("Return", ("AbiTmp", "u16", B1)))
+        add("abi-string-from-uint", ("Return", ("Un", "Len", ("AbiTmp", "str", U1))))
+        add("abi-bool-from-bytes", ("Return", ("AbiTmp", "bool", B1)))
     if mode == "A" and version >= 5:
         add("log-uint", ("Seq", ("Un", "Log", U1), ret1()))
     if version < 4:
@@ -84,6 +97,13 @@ def ill_family(mode: str, version: int) -> List[Tuple[str, Dict[str, Any], Dict[
         sub("u", ("Seq", ("If", ("Un", "Not", P), ("Return",)), ("Return", ("Bin", "Add", ("Int", 1), ("Call", "f", ("Bin", "Minus", P, ("Int", 1))))))))
     add("value-routine-bare-return-in-loop", callv,
         sub("u", ("Seq", ("While", P, ("Seq", ("Return",))), ("Return", ("Int", 2)))))
+    if mode == "A" and version >= 6:
+        # the same inside routines (frame-backed from version 8)
+        add("routine-abi-uint64-from-bytes", callv, sub("u", ("Bin", "Add", ("AbiTmp", "u64", B1), P)))
+        add("routine-abi-uint8-from-bytes", callv, sub("u", ("Bin", "Add", ("AbiTmp", "u8", B1), P)))
+        add("routine-abi-string-from-uint", callv, sub("u", ("Un", "Len", ("AbiTmp", "str", ("Bin", "Add", P, ("Int", 1))))))
+        add("abi-output-routine-abi-uint64-from-bytes", ("Return", ("Call", "f", U1)),
+            {"f": {"params": [("val", "n")], "ret": "a", "body": ("Bin", "Add", ("AbiTmp", "u64", B1), P)}})
     if mode == "A" and version >= 6:
         add("abi-routine-bare-return-in-guard", ("Return", ("Call", "f", U1)),
             {"f": {"params": [("val", "n")], "ret": "a", "body": ("Seq", ("If", ("Un", "Not", P), ("Return",)), ("Bin", "Add", P, ("Int", 1)))}})
